@@ -69,6 +69,7 @@ type run struct {
 	hist   []string
 	hmu    sync.Mutex
 	gotLog []string
+	rev2   bool // the server advertises IMAP4rev2 (never enabled by the client here)
 }
 
 func (r *run) log(f string, a ...any) {
@@ -187,7 +188,7 @@ func errKey(err error) string {
 
 // genRound draws the commands of one round so that the reference
 // interpretation is unambiguous (RFC 9051 section 5.5).
-func genRound(t *rapid.T, exists uint32) []*cmdSpec {
+func genRound(t *rapid.T, exists uint32, syncLiterals bool) []*cmdSpec {
 	var cmds []*cmdSpec
 	used := map[string]bool{}
 	nextSeq := uint32(1)
@@ -330,7 +331,9 @@ func genRound(t *rapid.T, exists uint32) []*cmdSpec {
 				continue
 			}
 			used["APPEND"] = true
-			if c.out.status != "OK" && rapid.Bool().Draw(t, label+".refuse") {
+			// (a literal can only be refused when it is a synchronising one: not
+			// when the server advertises IMAP4rev2, which implies LITERAL-)
+			if syncLiterals && c.out.status != "OK" && rapid.Bool().Draw(t, label+".refuse") {
 				c.refused = true
 			}
 			if c.out.status == "OK" {
@@ -558,7 +561,7 @@ func parseSeq(s string) (imap.SeqSet, error) {
 
 // round runs one pipelined round.
 func (r *run) round(t *rapid.T, idx int) (outOfOrder, sawUpdate bool) {
-	cmds := genRound(t, r.m.exists)
+	cmds := genRound(t, r.m.exists, !r.rev2)
 	// answer order: a permutation of the commands
 	order := inOrderWithinKind(cmds, rapid.Permutation(indices(len(cmds))).Draw(t, "order"))
 	// a refused APPEND is necessarily answered when its literal header arrives
@@ -846,7 +849,15 @@ func TestPropRouting(t *testing.T) {
 				mu.Unlock()
 			},
 		}}
-		r.send("* OK [CAPABILITY IMAP4rev1 UIDPLUS ESEARCH ENABLE] ready")
+		// some servers also advertise IMAP4rev2 (the client never enables it
+		// here, so the server keeps answering in IMAP4rev1 style)
+		caps := "IMAP4rev1 UIDPLUS ESEARCH ENABLE"
+		if rapid.Bool().Draw(t, "advertise-rev2") {
+			caps = "IMAP4rev1 IMAP4rev2 UIDPLUS ESEARCH ENABLE"
+			r.rev2 = true
+			ev.Class("server-advertises-IMAP4rev2")
+		}
+		r.send("* OK [CAPABILITY " + caps + "] ready")
 		r.c = imapclient.New(clientEnd, opts)
 		defer func() {
 			cs.Within(5*time.Second, "Close", func() error { r.c.Close(); return nil })
@@ -860,7 +871,7 @@ func TestPropRouting(t *testing.T) {
 		if err != nil {
 			r.fail("login: %v", err)
 		}
-		r.send(cmd.Tag + " OK [CAPABILITY IMAP4rev1 UIDPLUS ESEARCH ENABLE] logged in")
+		r.send(cmd.Tag + " OK [CAPABILITY " + caps + "] logged in")
 		if err := <-done; err != nil {
 			r.fail("login failed: %v", err)
 		}
